@@ -82,8 +82,31 @@ def pckey(o):
     return tuple((c.key, t) for c, t in pc)
 
 
+def refusals(ctx, chk, metrics=METRICS, rule="R02.6"):
+    """A threshold setter refuses (raises) only when the population it inverts over is empty: a refusal whose condition mentions the target
+    or a declared easy count rejects requests inside the property's quantifier (every target in [0, 1], every easy count >= 0)."""
+    from ..spec import raises, EP, EN
+    for metric in metrics:
+        q = SCORES + ".threshold_at_" + metric
+        for sc, ec in GAMMAS:
+            outs = explore_threshold(ctx, chk, metric, sc, ec, "linear", stub=INV)
+            inst = "%s:%s/%s" % (metric, sc, ec)
+            bad = None
+            for o in raises(outs):
+                syms = {a for c, _t in o.pc for a in atoms_of(c) if isinstance(a, Sym)}
+                if R in syms or EP in syms or EN in syms:
+                    bad = o
+                    break
+            if bad is not None:
+                chk.violation(rule, q, inst + ":refusal", "%s when %s" % (show(bad.value, 80), " & ".join(("" if t else "not ") + show(c, 80) for c, t in bad.pc)[:200]),
+                              "a threshold for every target and every declared easy count whenever the relevant population is non-empty", ctx.where(q))
+            else:
+                chk.hold(rule, inst, "refuses only on an empty population (%d raise path(s))" % len(raises(outs)), nontrivial=False)
+
+
 def structural(ctx, chk, tier):
     alias_forwarding(ctx, chk)
+    refusals(ctx, chk)
     flip_parity(ctx, chk)
     chk.floor("R02.2", 72, "6 metrics x 4 configurations x 3 methods")
     # ---------------- R02.3 interpolation core
